@@ -74,8 +74,15 @@ CONSTANTS
                 \* the channel all arise), possibly twice;
                 \* "two": two read streams on one session, packets of both interleaved one
                 \* by one; the streams in Readers are read with one kind of call repeated
-                \* until EOF, the others are left unread (and fill the buffer limit)
+                \* until EOF, the others are left unread (and fill the buffer limit);
+                \* "exw" exit and wait: redirect at any idle point, packets one by one,
+                \* exit status, CLOSE, one wait() at any idle point, target writes
+                \* completing at any idle point
     PrintAt,    \* 0: never; else print the history when it has this length or is terminal
+    SlowTgt,    \* TRUE: redirect targets are written by a background task (async file object,
+                \* asyncio.StreamWriter): data is queued and written when the target lets it
+                \* (TStep); wait()/communicate()/run() must wait for the queue (ExitAfterOutput)
+    ReportAtChannelClose, \* sensitivity: wait() returns as soon as the channel is closed
     StreamSample, \* 0: every stream; else that many streams drawn at random (quick tables)
     Readers,    \* policy "two": the streams the application reads (the others stay unread)
     EscapeFix,  \* TRUE: readuntil returns a partial result while paused only if it is non-empty
@@ -220,7 +227,20 @@ SepChoice == {NlSep} \cup {<<"lit", t>> : t \in UNION {Pick(sh) : sh \in SepShap
 NoCall == [k |-> "none", n |-> 0, n0 |-> 0, sep |-> NoSep, acc |-> <<>>, cur |-> 0, brk |-> FALSE]
 \* redirect target(s) of a stream: data = everything written to the targets,
 \* gens = length of data at the moments the target was replaced
-NoTgt  == [on |-> FALSE, data |-> <<>>, eof |-> FALSE, late |-> FALSE, gens |-> <<>>]
+\* q = what a slow target's writer task still has to write (chunks, then <<"!eof">>),
+\* eofq = its close() was called
+NoTgt  == [on |-> FALSE, data |-> <<>>, eof |-> FALSE, late |-> FALSE, gens |-> <<>>,
+           q |-> <<>>, eofq |-> FALSE]
+\* the EOF item is processed as soon as it is at the head (it does not block)
+TgtSettle(t) == IF t.q # <<>> /\ Head(t.q) = <<"!eof">>
+                THEN [t EXCEPT !.q = Tail(@), !.eof = TRUE] ELSE t
+TgtClose(t) == IF ~t.on THEN t
+               ELSE IF ~SlowTgt THEN [t EXCEPT !.eof = TRUE]
+               ELSE IF t.eofq THEN t
+               ELSE TgtSettle([t EXCEPT !.q = Append(@, <<"!eof">>), !.eofq = TRUE])
+RECURSIVE QData(_)
+QData(q) == IF q = <<>> THEN <<>>
+            ELSE (IF Head(q) = <<"!eof">> THEN <<>> ELSE Head(q)) \o QData(Tail(q))
 
 InitC(W) ==
     [w    |-> W,                         \* channel window (_init_recv_window)
@@ -296,6 +316,7 @@ Allowed(cl, r, sn) ==
            \* ExitImpliesAllOutput
            /\ r.v = sn.B /\ r.v2 = sn.B2
            /\ (r.x # "none" => sn.all)
+           /\ sn.tgtok
       [] OTHER -> FALSE
 
 -----------------------------------------------------------------------------
@@ -319,12 +340,14 @@ Deliver(cc, d, u) ==
               ELSE [cc EXCEPT !.cwin = nw]
         c2 == [c1 EXCEPT !.eff[d] = @ \o u]
     IN  IF c2.tgt[d].on
-        THEN [c2 EXCEPT !.tgt[d].data = @ \o u,
-                        !.tgt[d].late = @ \/ c2.tgt[d].eof]
+        THEN IF SlowTgt
+             THEN [c2 EXCEPT !.tgt[d].q = Append(@, u),
+                             !.tgt[d].late = @ \/ c2.tgt[d].eofq]
+             ELSE [c2 EXCEPT !.tgt[d].data = @ \o u,
+                             !.tgt[d].late = @ \/ c2.tgt[d].eof]
         ELSE Pause(Wake([c2 EXCEPT !.buf[d] = Append(@, u), !.len = @ + Len(u)], d))
 
-TgtEOF(cc) == [cc EXCEPT !.tgt = [d \in DTs |->
-                  IF cc.tgt[d].on THEN [cc.tgt[d] EXCEPT !.eof = TRUE] ELSE cc.tgt[d]]]
+TgtEOF(cc) == [cc EXCEPT !.tgt = [d \in DTs |-> TgtClose(cc.tgt[d])]]
 
 SessEOF(cc) == WakeSeq(TgtEOF([cc EXCEPT !.eof = TRUE, !.ceof = "done"]), DTOrder)
 
@@ -451,14 +474,22 @@ UntilLoop(cc, d) ==
 WaitStep(cc) ==
     LET c1 == IF cc.call["w"].cur = 0
               THEN Resume([cc EXCEPT !.lim = 0, !.call["w"].cur = 1]) ELSE cc IN
-    IF c1.ccl = "done"
+    \* SSHProcess.wait_closed(): the channel's close event, then the clean-up
+    \* tasks = the queues of the background writers
+    IF c1.ccl = "done" /\ (ReportAtChannelClose \/ \A d \in DTs : c1.tgt[d].q = <<>>)
     THEN LET o == Flat(c1.buf["out"])
              e == IF "err" \in DTs THEN Flat(c1.buf["err"]) ELSE <<>>
              r == [k |-> "wait", v |-> o, v2 |-> e, x |-> c1.exit]
              unread(d) == IF d \notin DTs \/ c1.tgt[d].on THEN <<>>
                           ELSE SubSeq(c1.eff[d], c1.pos[d] + 1, Len(c1.eff[d]))
              sn == [B |-> unread("out"), B2 |-> unread("err"),
-                    all |-> \A d \in DTs : c1.tgt[d].on \/ DataOf(c1.eff[d]) = DataOf(S[d])]
+                    all |-> \A d \in DTs : c1.tgt[d].on \/ DataOf(c1.eff[d]) = DataOf(S[d]),
+                    \* ExitAfterOutput: every redirect target holds all of its
+                    \* stream and has been given EOF
+                    tgtok |-> \A d \in DTs : c1.tgt[d].on =>
+                                /\ c1.tgt[d].q = <<>> /\ c1.tgt[d].eof
+                                /\ DataOf(SubSeq(c1.eff[d], 1, c1.pos[d])) \o c1.tgt[d].data
+                                     = DataOf(S[d])]
          IN [c1 EXCEPT !.call["w"] = NoCall,
                        !.buf = [d \in DTs |-> <<>>],
                        !.len = 0,
@@ -513,8 +544,10 @@ DoRedirect(cc, d) ==
                            !.tgt[d].eof = cc.eof])
     ELSE
     LET data == DataOf(Flat(cc.buf[d]))
-        c1 == [cc EXCEPT !.tgt[d] = [on |-> TRUE, data |-> data, eof |-> cc.eof,
-                                     late |-> FALSE, gens |-> <<>>],
+        t0 == [NoTgt EXCEPT !.on = TRUE,
+                            !.data = IF SlowTgt THEN <<>> ELSE data,
+                            !.q = IF SlowTgt THEN cc.buf[d] ELSE <<>>]
+        c1 == [cc EXCEPT !.tgt[d] = IF cc.eof THEN TgtClose(t0) ELSE t0,
                          !.buf[d] = <<>>,
                          !.len = @ - Len(data)]
     IN Resume(c1)
@@ -594,7 +627,7 @@ EmitEOF ==
 
 EmitExit(x) ==
     /\ Proc /\ EmitOK /\ ~exitSent
-    /\ Policy \in {"red", "two"} => x = "status" /\ AllSent
+    /\ Policy \in {"red", "two", "exw"} => x = "status" /\ AllSent
     /\ wire' = Append(wire, [t |-> "exit", dt |-> Prim, u |-> <<x>>])
     /\ exitSent' = TRUE
     /\ hist' = Hist(<<"emit", "exit", Prim, <<x>> >>)
@@ -602,7 +635,7 @@ EmitExit(x) ==
 
 EmitClose ==
     /\ Proc /\ EmitOK /\ AllSent
-    /\ Policy \in {"red", "two"} => exitSent
+    /\ Policy \in {"red", "two", "exw"} => exitSent
     /\ wire' = Append(wire, [t |-> "close", dt |-> Prim, u |-> <<>>])
     /\ closeSent' = TRUE
     /\ hist' = Hist(<<"emit", "close", Prim, <<>> >>)
@@ -614,7 +647,7 @@ Settle(c2) == /\ c' = [c2 EXCEPT !.adj = 0, !.fin = <<>>]
 
 Run ==
     /\ wire # <<>>
-    /\ Policy \in {"rfl", "dfl", "red", "two"} => Len(wire) = 1
+    /\ Policy \in {"rfl", "dfl", "red", "two", "exw"} => Len(wire) = 1
     /\ LET c2 == RunReaders(ProcessAll(c, wire)) IN
          /\ Settle(c2)
          /\ hist' = Hist(<<"run", c2.fin, AE(c2)>>)
@@ -640,6 +673,7 @@ StartCall(d, cl) ==
     /\ CallOK
     /\ Policy \in {"rfl", "dfl"} => /\ d = Prim /\ SameAsFirst(cl) /\ ~AtEOF(d)
                                    /\ (cl.k \in {"read", "exact"} => cl.n0 # 0)
+    /\ Policy # "exw"
     /\ Policy = "red" => cl.k = "read" /\ cl.n0 > 0
     /\ Policy = "two" => /\ d \in Readers /\ SameAsFirst(cl) /\ ~Done(d)
                          /\ (cl.k \in {"read", "exact"} => cl.n0 # 0)
@@ -661,7 +695,7 @@ StartWait ==
     /\ UNCHANGED <<S, sent, eofSent, exitSent, closeSent, wire>>
 
 StartCollect ==
-    /\ Proc /\ CallOK /\ NoActiveCall /\ Policy \notin {"red", "two"}
+    /\ Proc /\ CallOK /\ NoActiveCall /\ Policy \notin {"red", "two", "exw"}
     /\ \A d \in DTs : ~c.tgt[d].on
     /\ LET c2 == RunReaders(DoCollect(c)) IN
          /\ Settle(c2)
@@ -672,6 +706,8 @@ StartCollect ==
 Redirect(d) ==
     /\ Redir /\ Idle /\ NoActiveCall
     /\ ~c.tgt[d].on \/ Len(c.tgt[d].gens) + 1 < MaxRedir
+    \* "exw": redirected from the start (late redirection has its own table)
+    /\ Policy = "exw" => \A i \in DOMAIN hist : hist[i][1] = "redirect"
     /\ LET c2 == RunReaders(DoRedirect(c, d)) IN
          /\ Settle(c2)
          \* with the buffer state the redirection meets: chunks buffered in the
@@ -688,8 +724,20 @@ CanEmit ==
        \/ AllSent /\ ~eofSent
        \/ Proc /\ AllSent /\ ~exitSent
        \/ Proc /\ exitSent
+\* the target lets the writer task complete one write
+TStep(d) ==
+    /\ SlowTgt /\ Idle /\ c.tgt[d].on /\ c.tgt[d].q # <<>>
+    /\ LET t1 == TgtSettle([c.tgt[d] EXCEPT !.data = @ \o Head(c.tgt[d].q), !.q = Tail(@)])
+           c1 == [c EXCEPT !.tgt[d] = t1]
+           c2 == RunReaders(IF t1.q = <<>> THEN Wake(c1, "w") ELSE c1) IN
+         /\ Settle(c2)
+         /\ hist' = Hist(<<"tstep", d, c2.fin, AE(c2)>>)
+    /\ UNCHANGED <<S, sent, eofSent, exitSent, closeSent, wire, ncalls>>
+
 Terminal ==
-    CASE Policy \in {"rfl", "dfl"} -> eofSent /\ Idle /\ NoActiveCall /\ AtEOF(Prim) /\ ncalls >= 1
+    CASE Policy = "exw" -> /\ closeSent /\ Idle /\ ncalls >= 1 /\ c.call["w"].k = "none"
+                           /\ \E d \in DTs : c.tgt[d].on
+      [] Policy \in {"rfl", "dfl"} -> eofSent /\ Idle /\ NoActiveCall /\ AtEOF(Prim) /\ ncalls >= 1
       [] Policy = "red" -> /\ eofSent /\ Idle /\ (Proc => closeSent)
                            /\ \E d \in DTs : c.tgt[d].on
       [] Policy = "two" ->
@@ -717,6 +765,7 @@ Next ==
     \/ StartWait
     \/ StartCollect
     \/ \E d \in DTs : Redirect(d)
+    \/ \E d \in DTs : TStep(d)
 
 Spec == Init /\ [][Next]_vars
 
@@ -740,7 +789,7 @@ WireMarks(q, d) == IF q = <<>> THEN <<>>
 NothingLost ==
     \A d \in DTs :
       /\ IF c.tgt[d].on
-         THEN SubSeq(c.eff[d], c.pos[d] + 1, Len(c.eff[d])) = c.tgt[d].data
+         THEN SubSeq(c.eff[d], c.pos[d] + 1, Len(c.eff[d])) = c.tgt[d].data \o QData(c.tgt[d].q)
          ELSE SubSeq(c.eff[d], c.pos[d] + 1, Len(c.eff[d])) = c.call[d].acc \o Flat(c.buf[d])
       /\ (c.ccl \in {"no", "pending"} \/ ~CloseBug) =>
            DataOf(c.eff[d]) \o HeldData(c.cbuf, d) \o HeldData(wire, d)
@@ -753,7 +802,7 @@ NothingLost ==
 AllDataThenEOF ==
     \A d \in DTs : c.tgt[d].on =>
       /\ ~c.tgt[d].late
-      /\ c.eof => c.tgt[d].eof
+      /\ c.eof => (c.tgt[d].eof \/ (SlowTgt /\ c.tgt[d].eofq))
       /\ c.tgt[d].eof =>
            DataOf(SubSeq(c.eff[d], 1, c.pos[d])) \o c.tgt[d].data = DataOf(S[d])
 
